@@ -143,6 +143,15 @@ class _Ufunc(Contract):
             return S.dim(o.fields["units"])
         return SDim.one()
 
+    kind = None
+
+    def replay(self, model, label):
+        from .replaylib import ufunc_script
+        if self.kind is None:
+            return None
+        return ufunc_script(model, self.ufunc, self.config, self.kind, getattr(self, "sign", 1),
+                            getattr(self, "names", None), self.method)
+
     def class_post(self, it, r):
         """C16: shape () <=> unyt_quantity; more than one element => never a quantity"""
         if not N.is_unyt_array(r):
@@ -201,7 +210,10 @@ class _Commensurable(_Ufunc):
         return z3.Or(self.rescaled(it, a), S.scale(u0) == S.scale(u1))
 
     def raises(self, it, a):
-        d = {"UnitOperationError": self.incommensurable(it, a)}
+        # C01 asks for a refusal, not for a particular exception class: the dispatcher's own
+        # check raises UnitOperationError, the conversion-factor lookup UnitConversionError
+        d = {"UnitOperationError": self.incommensurable(it, a),
+             "UnitConversionError": self.incommensurable(it, a)}
         o1 = a.inputs[1]
         if N.is_array(o1):
             # C17: the second operand is cast to the float of its item size before rescaling;
@@ -240,13 +252,16 @@ class _Commensurable(_Ufunc):
 class _Additive(_Commensurable):
     """add / subtract on operands whose units have no zero-point offset"""
     sign = 1
+    kind = "additive"
 
     def requires(self, it, a):
         out = _Commensurable.requires(self, it, a)
-        if self.ufunc == "subtract" and self.units(a)[0] is not None:
+        if self.ufunc == "subtract":
             # temperature differences are the business of the C08 contracts below
-            out.append(("left operand is not a temperature",
-                        z3.Not(_b(S.dim(self.units(a)[0]).is_base("temperature")))))
+            for u in self.units(a):
+                if u is not None:
+                    out.append(("operand is not a temperature",
+                                z3.Not(_b(S.dim(u).is_base("temperature")))))
         return out
 
     def ensures(self, it, a, r, old):
@@ -269,13 +284,14 @@ class _Additive(_Commensurable):
         return out + self.frames(a, old) + self.class_post(it, r)
 
     def canary(self, it, a, r, old):
-        if not N.is_unyt_array(r) or old[0] is None:
+        if not N.is_unyt_array(r):
             return None
-        return to_real(N.arr_elem(r)) == to_real(old[0]["elem"])
+        return to_real(N.arr_elem(r)) == 12345
 
 
 class _Homogeneous(_Commensurable):
     """maximum/minimum/fmax/fmin/hypot/remainder/mod/fmod: positively homogeneous of degree 1"""
+    kind = "homog"
 
     def ensures(self, it, a, r, old):
         P = it.domain.prefix_table(it)
@@ -306,6 +322,7 @@ class _Homogeneous(_Commensurable):
 
 class _Comparison(_Commensurable):
     """the six comparisons: verdict == comparison of SI magnitudes"""
+    kind = "compare"
 
     def either_dimensionless(self, a):
         return z3.Or(_b(self.dim(a, 0).is_one()), _b(self.dim(a, 1).is_one()))
@@ -363,6 +380,7 @@ class _Comparison(_Commensurable):
 class _Multiplicative(_Ufunc):
     """multiply / divide / true_divide: SI(result) == SI(a) (*|/) SI(b), dimension by
     dimensional analysis -- proved through the coefficient bookkeeping of the unit rule"""
+    kind = "mult"
 
     def eff_units(self, it, a):
         return [u if u is not None else it.domain.null_unit(it) for u in self.units(a)]
@@ -399,10 +417,106 @@ class _Multiplicative(_Ufunc):
         return to_real(N.arr_elem(r)) == to_real(old[0]["elem"])
 
 
-def _mk(base, ufunc, config, method="__call__", **extra):
-    name = "U_%s_%s_%s" % (ufunc, method.strip("_"), "".join(config))
+# the library's temperature units (C08's quantifier): name -> (has a zero point, degree size
+# fixed by the table or None).  Ground obligation C08.G checks these facts against the table.
+TEMPERATURE_NAMES = {
+    "K": (False, None), "R": (False, None), "degC": (True, Fraction(1)), "degF": (True, Fraction(5, 9)),
+    "delta_degC": (False, Fraction(1)), "delta_degF": (False, Fraction(5, 9)),
+    "mK": (False, None), "mdegC": (True, None),
+}
+
+
+class _Temperature(_Ufunc):
+    """C08: add / subtract on two temperature quantities, one contract object per ordered pair
+    of the library's temperature unit names (so every string test of the dispatcher is decided),
+    with arbitrary readings, degree sizes and zero points.  Whenever a value is returned it is
+    the one affine (point/difference) arithmetic gives, in the degree size of the unit the result
+    is labelled with; two different offset scales are refused."""
+    plain = False
+    sign = 1
+    kind = "temperature"
+    names = ("K", "K")
+    # C08 allows a refusal wherever it does not demand a value; RuntimeError is the
+    # "supposed to be unreachable" branch of _difference_units (reached by prefixed point scales)
+    may_raise = ("UnitOperationError", "InvalidUnitOperation", "UnitConversionError", "TypeError",
+                 "RuntimeError")
+    properties = ("C08",)
+
+    def formals(self, it):
+        from pyvc.unyt_domain import name_expr
+        f = _Ufunc.formals(self, it)
+        for o, n in zip(f["inputs"], self.names):
+            name_expr(it, o.fields["units"].fields["expr"], n)
+        return f
+
+    def requires(self, it, a):
+        out = _Ufunc.requires(self, it, a)
+        for u, n in zip(self.units(a), self.names):
+            point, deg = TEMPERATURE_NAMES[n]
+            out.append(("%s is a temperature" % n, _b(S.dim(u).is_base("temperature"))))
+            out.append(("%s %s a zero point (table fact)" % (n, "has" if point else "has no"),
+                        S.offset(u) != 0 if point else S.offset(u) == 0))
+            if deg is not None:
+                out.append(("%s has the table's degree size" % n, S.scale(u) == z3.RealVal(str(deg))))
+        return out
+
+    def ensures(self, it, a, r, old):
+        P = it.domain.prefix_table(it)
+        u0, u1 = self.units(a)
+        for s_ in old:
+            it.ctx.instantiate(s_["elem"], z3.RealVal(0), z3.RealVal(1))
+        if not N.is_unyt_array(r):
+            return [("result is a unyt object", False)]
+        L = r.fields["units"]
+        res = to_real(N.arr_elem(r))
+        e0, e1 = to_real(old[0]["elem"]), to_real(old[1]["elem"])
+        p0, p1 = TEMPERATURE_NAMES[self.names[0]][0], TEMPERATURE_NAMES[self.names[1]][0]
+        K0, K1 = S.SI(e0, u0, P), S.SI(e1, u1, P)              # kelvin readings of points
+        D0, D1 = e0 * S.scale(u0), e1 * S.scale(u1)            # differences, in kelvin
+        KL = S.SI(res, L, P)
+        DL = res * S.scale(L)
+        L_point = S.offset(L) != 0
+        # units that compare equal under Unit.__eq__ (isclose on scale and zero point) are
+        # identified by the library: the exact law is claimed when they were rescaled or agree exactly
+        exact = z3.Or(z3.Not(units_equal(it, u0, u1)),
+                      z3.And(S.scale(u0) == S.scale(u1),
+                             S.eff_offset(u0, P) == S.eff_offset(u1, P)))
+        out = [("the result is a temperature", _b(S.dim(L).is_base("temperature")))]
+        if self.sign == 1:
+            if p0 and not p1:
+                out.append(("point + difference: affine value, labelled with a point scale",
+                            z3.Implies(exact, z3.And(L_point, KL == K0 + D1))))
+            elif p1 and not p0:
+                out.append(("difference + point: affine value, labelled with a point scale",
+                            z3.Implies(exact, z3.And(L_point, KL == D0 + K1))))
+            elif not p0 and not p1:
+                out.append(("difference + difference: sum of the differences, labelled with a "
+                            "difference scale", z3.Implies(exact, z3.And(z3.Not(L_point), DL == D0 + D1))))
+        else:
+            if p0 and not p1:
+                out.append(("point - difference: affine value, labelled with a point scale",
+                            z3.Implies(exact, z3.And(L_point, KL == K0 - D1))))
+            elif not p0 and not p1:
+                out.append(("difference - difference: labelled with a difference scale",
+                            z3.Implies(exact, z3.And(z3.Not(L_point), DL == D0 - D1))))
+            elif p0 and p1:
+                out.append(("point - point: the temperature difference, labelled with a difference scale",
+                            z3.Implies(exact, z3.And(z3.Not(L_point), DL == K0 - K1))))
+        if p0 and p1:
+            out.append(("two different offset scales are never combined",
+                        units_equal(it, u0, u1)))
+        return out + self.frames(a, old) + self.class_post(it, r)
+
+    def canary(self, it, a, r, old):
+        if not N.is_unyt_array(r):
+            return None
+        return to_real(N.arr_elem(r)) == 12345
+
+
+def _mk(base, ufunc, config, method="__call__", suffix="", **extra):
+    name = "U_%s_%s_%s%s" % (ufunc, method.strip("_"), "".join(config), suffix)
     d = {"ufunc": ufunc, "config": tuple(config), "method": method,
-         "tag": "%s.%s(%s)" % (ufunc, method, ",".join(config))}
+         "tag": "%s.%s(%s)%s" % (ufunc, method, ",".join(config), suffix)}
     d.update(extra)
     cls = type(name, (base,), d)
     cls.__module__ = __name__
@@ -426,3 +540,10 @@ for _uf in MULT:
         if "z" in _cfg:
             continue
         ALL.append(_mk(_Multiplicative, _uf, _cfg))
+TEMPERATURE = []
+for _n0 in TEMPERATURE_NAMES:
+    for _n1 in TEMPERATURE_NAMES:
+        for _uf, _sg in (("add", 1), ("subtract", -1)):
+            TEMPERATURE.append(_mk(_Temperature, _uf, ("q", "q"), suffix="_T_%s_%s" % (_n0, _n1),
+                                   sign=_sg, names=(_n0, _n1)))
+ALL += TEMPERATURE
